@@ -13,13 +13,13 @@ pub fn def() -> CheckDef {
         functions: &[
             "IndexedCoproduct::{new,from_semifinite,singleton,elements,initial,len,coproduct,tensor,map_indexes,indexed_values,map_values,map_semifinite,flatmap,flatmap_sources,==}",
             "IndexedCoproductFiniteFunctionIterator::{next,size_hint,len}",
-            "IndexedCoproductSemifiniteFunctionIterator::{next,size_hint,len}",
+            "IndexedCoproductSemifiniteFunctionIterator::{next,size_hint,len}", "IndexedCoproduct::<VecKind, SemifiniteFunction<VecKind, T>>::iter", "Operations::<VecKind, O, A>::iter",
             "NaturalArray::{segmented_sum,segmented_arange,sum} (default methods), FiniteFunction::injections",
         ],
         bounds_quick: "<=3 segments, total size <=3 (every split of the total over the segments, empty segments included), value codomains symbolic 0..=3, re-indexing maps of length <=3 (non-injective, empty, mistyped; segments+total+|x| <= 7), flatmap operands <=2 segments/total <=3",
         bounds_thorough: "<=4 segments, total <=4",
         jobs,
-        budget_s: (120, 2400),
+        budget_s: (120, 1500),
     }
 }
 
@@ -237,10 +237,34 @@ fn oracle_iter(inp: &PV, out: &PV) -> T {
     tm::and(cs)
 }
 
+fn oracle_vec_iter(inp: &PV, out: &PV) -> T {
+    if out.is_panic() {
+        return tm::FALSE;
+    }
+    let (a, b, x) = (inp.at(0).ic(), inp.at(1).ic(), inp.at(2).ts());
+    let (xa, xb) = (lol(a), lol(b));
+    let slices = out.at(0).list();
+    let triples = out.at(1).list();
+    if slices.len() != xa.len() || triples.len() != x.len() {
+        return tm::FALSE;
+    }
+    let mut cs = vec![];
+    for (s, w) in slices.iter().zip(xa.iter()) {
+        cs.push(all_eq(&s.ts(), w));
+    }
+    // the per-operation view: (label, source type, target type) in order
+    for (i, t) in triples.iter().enumerate() {
+        cs.push(tm::eq(t.at(0).t(), x[i]));
+        cs.push(all_eq(&t.at(1).ts(), &xa[i]));
+        cs.push(all_eq(&t.at(2).ts(), &xb[i]));
+    }
+    tm::and(cs)
+}
+
 pub fn jobs(tier: Tier, _seed: u64) -> Vec<Job> {
     let per_job = Duration::from_secs(match tier {
         Tier::Quick => 60,
-        Tier::Thorough => 900,
+        Tier::Thorough => 600,
     });
     let cfg = base_cfg(tier);
     let m = match tier {
@@ -274,6 +298,29 @@ pub fn jobs(tier: Tier, _seed: u64) -> Vec<Job> {
                 let gen = move || PV::List(vec![PV::IC(gen_icf_sym(x, total, m, "a")), PV::FF(gen_ff_sym(k, m, "f")), PV::of_ts(&gen_labels(k, "l"))]);
                 cases.push(crate::case!(format!("map_values/map_semifinite segments={} total={} |f|={}", x, total, k), gen, c08_mapvals, oracle_mapvals, 2));
             }
+        }
+    }
+    // VecKind-only slice iterators and the per-operation view of an operation batch (sizes enumerated, labels symbolic)
+    for nops in 0..=m {
+        for (ta, tb) in [(0usize, 0usize), (2, 1), (3, 3), (1, 3)] {
+            if nops == 0 && (ta > 0 || tb > 0) {
+                continue;
+            }
+            let gen = move || {
+                let split = |total: usize, name: &str| {
+                    // enumerate a split of `total` over `nops` segments
+                    let mut left = total;
+                    let mut sizes = vec![];
+                    for i in 0..nops {
+                        let k = if i + 1 == nops { left } else { crate::explore::choose(left + 1) };
+                        sizes.push(ci(k));
+                        left -= k;
+                    }
+                    RawIC { sizes, sizes_target: ci(total + 1), vals: gen_labels(total, name), vals_target: ci(0) }
+                };
+                PV::List(vec![PV::IC(split(ta, "a")), PV::IC(split(tb, "b")), PV::of_ts(&gen_labels(nops, "x"))])
+            };
+            cases.push(crate::case!(format!("Vec slice iterator / Operations::iter ops={} |a|={} |b|={}", nops, ta, tb), gen, c08_vec_iter, oracle_vec_iter, 3));
         }
     }
     for n in 0..=m {
